@@ -146,9 +146,10 @@ _RC = {}
 
 def _R(F):
     from roles import Roles
-    if id(F) not in _RC:
-        _RC[id(F)] = Roles(F)
-    return _RC[id(F)]
+    r = getattr(F, "_roles_c08", None)
+    if r is None:
+        r = F._roles_c08 = Roles(F)
+    return r
 
 
 def _none_edges_return_err(F, b):
